@@ -8,20 +8,27 @@
     STATUS
       C01_ebenc_iso_checker_sound   proved: the executable isomorphism checker the driver evaluates on every mesh is sound
       C13_ebenc_table_wf            proved: every table built by CornerTable::Create satisfies the encoder's preconditions
-      C01_ebenc_total_partial       proved: on EVERY triangle list the encoder terminates (no fuel exhaustion in any of its
-                                    seven loops), never indexes a vector out of range, fails cleanly iff all faces are
-                                    degenerated, and otherwise: every processed corner is a corner of a non-degenerated face,
-                                    no face is processed twice, the counts agree.   MISSING for the full statement: that
-                                    EVERY non-degenerated face is processed (see below).
-      C01_ebenc_total_wf_partial    the same for any table satisfying C13's invariants (as hypotheses)
-      C09_ebenc_counts_partial      proved: the identities between the counts the encoder declares and what it emitted, the
-                                    well-formedness of the split events (premises of the serialisation layer, TRAV)
+      C01_ebenc_total               proved (full): on EVERY triangle list the encoder terminates (no fuel exhaustion in any of
+                                    its seven loops), never indexes a vector out of range, fails cleanly iff all faces are
+                                    degenerated, and otherwise processes EVERY non-degenerated face EXACTLY once (closure of
+                                    the traversal), only those, with the count identities.
+      C01_ebenc_total_wf            the same for any table satisfying C13's invariants (as hypotheses)
+      C09_ebenc_counts              proved: the identities between the counts the encoder declares and what it emitted
+                                    (declared faces = processed corners = symbols + interior start faces, >= 3 symbols per
+                                    interior start face), the well-formedness of the split events
+      C09_ebenc_stream_never_rejected_by_guards_partial
+                                    proved: every guard of DecodeConnectivity() on the declared counts passes and eb_full =
+                                    eb_core on the encoder's output, under a size bound and TWO premises not derived here:
+                                    the vertex/edge graph is simple (guard G3) and #split events <= #faces (guard G8)
+      C09_ebenc_trav_premises       proved: conn_guards (= hdr_plausible of Properties_TRAV), header fields in range, ev_ok and
+                                    topo premises of the serialisation layer, under the size bound and the G3 premise
       C01_ebenc_sim_base            proved: base case of the encoder/decoder simulation relation [sim]
     NOT proved (kept as the executable check of harness/driver on every generated mesh, '!' lines / rt=1):
-      completeness of the traversal, the decoder's header guards on the declared counts, the round trip. *)
+      guards G3 and G8 above; preservation of [sim] symbol by symbol (no sim_step_X lemma is proved) and hence the round
+      trip theorems C01_ebenc_roundtrip_no_split / _no_event / general. *)
 From Coq Require Import ZArith List Bool Sorted.
 From Draco Require Import Model.CornerTable Model.EbEncoder Proofs.CornerTable_proofs Proofs.EbEncoder_proofs.
-From Draco Require Model.Edgebreaker.
+From Draco Require Model.Edgebreaker Model.EbTraversal.
 Import ListNotations.
 
 (** ** (2) The isomorphism between the encoder's table and the table the decoder builds.
@@ -48,62 +55,94 @@ Theorem C13_ebenc_table_wf : forall faces t, ct_create faces = Some t ->
 Proof. exact ct_create_wf. Qed.
 Print Assumptions C13_ebenc_table_wf.
 
-(** ** (3a) Totality.
-    FULL statement wanted (C01_ebenc_total):  for every triangle list, with t = Create(faces):
-        eb_encode_ct t = EFail  <->  every face is degenerated, and otherwise eb_encode_ct t = EOk o with
-        map (/3) (o_pcc o)  a PERMUTATION of the non-degenerated faces  (degenerated faces are never visited, they are not
-        part of the encoded mesh; isolated vertices - also the vertices used by degenerated faces only - are never marked and
-        are subtracted from the declared vertex count),  |o_syms o| + (number of interior start faces) = number of
-        non-degenerated faces, and one start-face bit per edge-connected component.
-    PROVED (partial) - [out_ok]: never EOob / EFuel; EFail iff all faces degenerated; o_pcc consists of corners of
-    non-degenerated faces, pairwise in different faces (every face is encoded AT MOST once); |o_pcc| = |o_syms| + number
-    of `true` start-face bits; o_nsyms = |o_syms|; o_nsplit = number of S symbols; symbols are C/S/L/R/E codes; every
-    split event has 0 <= split_symbol_id < source_symbol_id < o_nsyms and a 1-bit edge; sources are non-decreasing.
-    MISSING: every non-degenerated face IS processed (|o_pcc| = o_nfaces).  That needs the closure property of
-    EncodeConnectivityFromCorner (when the corner stack is empty no visited face has an unvisited neighbour), i.e. the
-    active-boundary structure of Edgebreaker that the encoder keeps only implicitly; it is tied on every generated mesh
-    by the harness ('COUNT processed corners != declared faces', 'face never processed') instead. *)
-Theorem C01_ebenc_total_partial : forall faces t, ct_create faces = Some t ->
+(** ** (3a) Totality and completeness.
+    For every triangle list, with t = Create(faces):  eb_encode_ct t = EFail  <->  every face is degenerated, and otherwise
+    eb_encode_ct t = EOk o with [out_ok]:
+      - never EOob / EFuel (the seven loops: FindHoles x2, EncodeHole x2, FindInitFaceConfiguration, the corner stack, the
+        face-count loop - whose bound `num_visited_faces < num_faces` is never the reason to leave);
+      - map (/3) (o_pcc o) is a duplicate-free list of non-degenerated faces containing EVERY non-degenerated face: a
+        permutation of them (degenerated faces are never visited; isolated vertices - also the vertices used by
+        degenerated faces only - are never marked and are subtracted from the declared vertex count);
+      - |o_pcc| = |o_syms| + number of `true` start-face bits, and 3 * (number of true bits) <= |o_syms|;
+      - o_nsyms = |o_syms|; o_nsplit = number of S symbols; symbols are C/S/L/R/E codes; every split event has
+        0 <= split_symbol_id < source_symbol_id < o_nsyms and a 1-bit edge; sources are non-decreasing.
+    Completeness = closure of EncodeConnectivityFromCorner: when the corner stack is empty no visited face has an
+    unvisited neighbour ([CLOSED]).  Proof (Proofs/EbEncoder_proofs.v, [RunG] / [run_end]): during a run every open edge
+    (visited face | unvisited face) is scheduled (current corner or stack) or DEFERRED - the left edge of a face processed
+    with symbol C, or the left / gate edge of the interior start face.  The tip of a C face is a fresh interior vertex, so
+    walking around it from the right neighbour (visited next) to the last visited face yields another open edge, which can
+    only be the deferred left edge of a C face processed LATER; the last such face gives the contradiction.  The loop over
+    all corners then covers every edge-connected component: a start corner found by swinging around a boundary vertex lies
+    in the same fan as the face it was looked up for, and `visited` propagates around a vertex in a closed state. *)
+Theorem C01_ebenc_total : forall faces t, ct_create faces = Some t ->
   let nf := length faces in
   (nf = ct_ndeg t -> eb_encode_ct t = EFail) /\
   (nf <> ct_ndeg t -> exists o, eb_encode_ct t = EOk o /\ out_ok (ct_c2v t) nf o /\
      o_nverts o = (Z.of_nat (length (ct_vcorn t)) - Z.of_nat (ct_niso t))%Z /\
      o_nfaces o = (Z.of_nat nf - Z.of_nat (ct_ndeg t))%Z).
 Proof. exact eb_encode_ct_total. Qed.
-Print Assumptions C01_ebenc_total_partial.
+Print Assumptions C01_ebenc_total.
 
 (** the same for ANY table with C13's invariants as hypotheses (the table need not come from Create) *)
-Theorem C01_ebenc_total_wf_partial : forall c2v opp nf nv niso ndeg,
+Theorem C01_ebenc_total_wf : forall c2v opp nf nv niso ndeg,
   length c2v = 3 * nf -> opp_ok c2v opp -> (forall c, c < 3 * nf -> vtx c2v c < nv) -> one_fan c2v opp ->
   (nf = ndeg -> eb_encode c2v opp nv niso ndeg = EFail) /\
   (nf <> ndeg -> exists o, eb_encode c2v opp nv niso ndeg = EOk o /\ out_ok c2v nf o /\
      o_nverts o = (Z.of_nat nv - Z.of_nat niso)%Z /\ o_nfaces o = (Z.of_nat nf - Z.of_nat ndeg)%Z).
 Proof. exact eb_encode_total. Qed.
-Print Assumptions C01_ebenc_total_wf_partial.
+Print Assumptions C01_ebenc_total_wf.
 
-(** ** (3b) Counts.
-    FULL statement wanted (C09_ebenc_counts): the counts the encoder declares pass the guards of the decoder's
-    DecodeConnectivity() (Properties_EB.C02_eb_caller_guard), i.e.
-        eb_decode_of o rm = Edgebreaker.eb_core (3 * nf') ((nev + nsplit) mod 2^32) nf' rm (rev syms) events bits
-    with nf' = o_nfaces, nev = o_nverts: needs  nev <= 3 nf';  3 nf'/2 <= nev (nev - 1)/2 (the vertex/edge graph left by
-    BreakNonManifoldEdges is simple);  |syms| <= nf' <= |syms| + |syms|/3 (every interior start face is followed by >= 3
-    symbols);  |events| <= nf'.   All but the first use the missing completeness.  The harness checks every one of them
-    on the real encoder's counts ('GUARD ...' lines) and the real decoder accepts every stream.
-    PROVED (partial): the identities below - in particular  o_nsplit <= o_nsyms  (guard `num_encoded_split_symbols >
-    num_encoded_symbols`), and the premises the serialisation layer (Properties_TRAV) needs from its caller:
-    split_symbol_id < source_symbol_id < number of symbols, sources sorted, symbols are C/S/L/R/E. *)
-Theorem C09_ebenc_counts_partial : forall faces t o, ct_create faces = Some t -> eb_encode_ct t = EOk o ->
+(** ** (3b) Counts and the decoder's guards.
+    The guards of DecodeConnectivity() on the declared counts (Model/Edgebreaker.v [eb_full], Properties_EB.C02_eb_caller_guard;
+    the same list as Model/EbTraversal.v [conn_guards] G1..G7 + G8):
+      G1 nf <= 1431655765, G7 nev + nsplit fits an int        from the size bound 3 |faces| + num_vertices < 2^31 (the range in
+                                                               which the C13 model is faithful)
+      G2 nev <= 3 nf                                           proved (every non-isolated vertex has its left-most corner in a
+                                                               non-degenerated face)
+      G4 nsyms <= nf, G5 nf <= nsyms + nsyms / 3               proved from completeness: nf = nsyms + #interior start faces and
+                                                               each interior start face is followed by >= 3 symbols (its three
+                                                               neighbours are three different faces of the same run)
+      G6 nsplit <= nsyms                                       proved
+      G3 3 nf / 2 <= nev (nev - 1) / 2                         PREMISE: needs that the vertex/edge graph left by
+                                                               BreakNonManifoldEdges is simple (not among C13's theorems)
+      G8 number of split events <= nf                          PREMISE (a counting argument over the S faces, not done)
+    Both premises are checked by the harness on the real encoder's counts for every generated mesh ('GUARD' lines). *)
+Theorem C09_ebenc_counts : forall faces t o, ct_create faces = Some t -> eb_encode_ct t = EOk o ->
   o_nsyms o = Z.of_nat (length (o_syms o)) /\
   o_nsplit o = Z.of_nat (count_occ Z.eq_dec (o_syms o) TOPOLOGY_S) /\ (0 <= o_nsplit o <= o_nsyms o)%Z /\
   length (o_pcc o) = length (o_syms o) + count_occ bool_dec (o_bits o) true /\
-  (Z.of_nat (length (o_pcc o)) <= o_nfaces o)%Z /\
+  3 * count_occ bool_dec (o_bits o) true <= length (o_syms o) /\
+  Z.of_nat (length (o_pcc o)) = o_nfaces o /\
   o_nverts o = (Z.of_nat (length (ct_vcorn t)) - Z.of_nat (ct_niso t))%Z /\
   o_nfaces o = (Z.of_nat (length faces) - Z.of_nat (ct_ndeg t))%Z /\
   Forall (fun x => In x [0; 1; 3; 5; 7]%Z) (o_syms o) /\
   Forall (fun e => match e with (src, spl, ed) => (0 <= spl < src)%Z /\ (src < o_nsyms o)%Z /\ (ed = 0 \/ ed = 1)%Z end) (o_events o) /\
   StronglySorted (fun e e' => (fst (fst e) <= fst (fst e'))%Z) (o_events o).
 Proof. exact eb_encode_ct_counts. Qed.
-Print Assumptions C09_ebenc_counts_partial.
+Print Assumptions C09_ebenc_counts.
+
+Theorem C09_ebenc_stream_never_rejected_by_guards_partial : forall faces t o rm,
+  ct_create faces = Some t -> eb_encode_ct t = EOk o ->
+  (Z.of_nat (3 * length faces + length (ct_vcorn t)) < 2147483648)%Z ->
+  ((3 * o_nfaces o) / 2 <= (o_nverts o * (o_nverts o - 1)) / 2)%Z ->
+  (Z.of_nat (length (o_events o)) <= o_nfaces o)%Z ->
+  eb_decode_of o rm =
+    Edgebreaker.eb_core (3 * o_nfaces o) (o_nverts o + o_nsplit o) (o_nfaces o) rm (rev (o_syms o)) (o_events o)
+                        (Edgebreaker.bits_of_list (o_bits o)) /\
+  (0 <= o_nverts o <= 3 * o_nfaces o)%Z /\ (o_nsyms o <= o_nfaces o <= o_nsyms o + o_nsyms o / 3)%Z /\
+  (0 <= o_nsplit o <= o_nsyms o)%Z /\ (0 <= o_nverts o + o_nsplit o < 2147483648)%Z /\ (0 <= o_nfaces o <= 1431655765)%Z.
+Proof. exact eb_encode_ct_guards. Qed.
+Print Assumptions C09_ebenc_stream_never_rejected_by_guards_partial.
+
+Theorem C09_ebenc_trav_premises : forall faces t o, ct_create faces = Some t -> eb_encode_ct t = EOk o ->
+  (Z.of_nat (3 * length faces + length (ct_vcorn t)) < 2147483648)%Z ->
+  ((3 * o_nfaces o) / 2 <= (o_nverts o * (o_nverts o - 1)) / 2)%Z ->
+  EbTraversal.conn_guards (o_nverts o) (o_nfaces o) (o_nsyms o) (o_nsplit o) = true /\
+  (0 <= o_nverts o < 2 ^ 32 /\ 0 <= o_nfaces o < 2 ^ 32 /\ 0 <= o_nsyms o < 2 ^ 32 /\ 0 <= o_nsplit o < 2 ^ 32)%Z /\
+  Forall (fun e => match e with (src, spl, ed) => (0 <= spl <= src /\ src < 2 ^ 32 /\ (ed = 0 \/ ed = 1))%Z end) (o_events o) /\
+  Forall (fun x => In x [0; 1; 3; 5; 7]%Z) (o_syms o).
+Proof. exact eb_encode_ct_trav_premises. Qed.
+Print Assumptions C09_ebenc_trav_premises.
 
 (** ** (3c) Round trip.
     FULL statements wanted (none proved; each is the executable check [eb_roundtrip_b] evaluated by the driver on every
